@@ -12,7 +12,7 @@ PROPS = {
         codec=[('valid', 0, 0)],
         sess=[('sess_c19', 300, 4000)],
         events='wrf', state=NO_TIMERS,
-        monitors=[M.mon_c19],
+        monitors=[M.mon_c19, M.mon_c19_wire],
         title='invalid requests refused locally without trace; QoS capped when asked',
         claim='Proved in Coq for all inputs: the validity table equals MQTT 5 table 2-4 restricted to client packets '
               '(27 kinds x 5 contexts by exhaustive case analysis), value legality for every value, a refused request '
@@ -22,6 +22,35 @@ PROPS = {
         note='Trusted: Coq kernel, the model and Spec.v (reading choices listed in DESIGN.md C19), extraction, harness. '
              'No axioms. Two genuine defects were found and fixed (WillDelayInterval refused on the will; TopicAlias(0) accepted).'),
 }
+
+PROPS['C07'] = dict(
+    sess=[('sess_c07', 300, 4000)],
+    events='w', state=['ret', 'rel', 'pid', 'h', 'gen', 'conn'],
+    monitors=[M.mon_c07],
+    title='packet identifiers in flight are non-zero and pairwise distinct',
+    claim='Proved in Coq for every program, script and broker behaviour (no bound on history length, so the 16-bit '
+          'counter wraps arbitrarily often): in every reachable state the identifiers of retained packets and pending '
+          'PUBRELs are in 1..65535 and pairwise distinct (invariant closed under every session step, lifted through the '
+          'machine refinement), and the allocator returns a non-zero identifier not in flight (pigeonhole over 17 '
+          'candidates). Model tied to the code by differential runs with the counter preset next to the wrap point '
+          'and onto identifiers in flight.',
+    note='Trusted: Coq kernel, the model, extraction, harness, the packet-id setter hook. No axioms. The property was '
+         'false on the unchanged tree (identifier reuse after wrap, unbounded SUBSCRIBE resend); repaired by fix 6dd89ae.')
+
+PROPS['C06'] = dict(
+    sess=[('sess_c06', 300, 4000)],
+    events='w', state=['ret', 'rel', 'quota', 'maxquota', 'h', 'conn', 'live', 'cp'],
+    monitors=[M.mon_c06],
+    title="the broker's Receive Maximum is never exceeded",
+    claim='Proved in Coq for every program, script and broker behaviour satisfying the stated environment flag: in every '
+          'reachable state send_quota + #unresolved QoS>0 publishes (retained PUBLISH packets + PUBRELs awaiting PUBCOMP) '
+          '<= max_send_quota = min(Receive Maximum, 8); the invariant is inductive over every step; a publish without quota '
+          'returns NotReady leaving outbound state and quota unchanged; a successful PUBREC can always queue its PUBREL '
+          '(no exchange dropped). Tied to the code by differential runs (quota, retained and release lists compared after '
+          'every action) and an independent wire-level monitor counting unresolved PUBLISH packets.',
+    note='Trusted: Coq kernel, model, extraction, harness. No axioms. Environment assumptions are explicit (ghost flag '
+         'w_envok): resumed CONNACKs leave room for what is carried over; PUBACK/PUBREC name PUBLISH entries. The property '
+         'was false on the unchanged tree (three histories); repaired by fixes b3f2128 and 37cc1f9.')
 
 TRUSTED_BASE = [
     'Coq 8.16.1 kernel and its bytecode VM (vm_compute); native_compute is not used',
